@@ -98,10 +98,18 @@ def run(chk):
     tier = "quick" if chk.quick else "thorough"
     # ---- 1. design level
     gdump = chk.work / "g_hist"
-    asis = _tlc(chk, "asis", tier + "_asis", dump=gdump, workers=chk.pick(8, 16))
+    # the dumped graph is produced with one worker: with the BFS-level bound (DepthOK) the set of states explored by
+    # parallel workers is not reproducible
+    if chk.quick:
+        asis = _tlc(chk, "asis", "quick_asis", dump=gdump, workers=1)
+    else:
+        big = _tlc(chk, "asis", "thorough_asis", workers=16)
+        if big.ok and big.zero_actions():
+            raise Machinery("vacuity: actions never taken: %s" % big.zero_actions())
+        asis = _tlc(chk, "mid_asis", "mid_asis", dump=gdump, workers=1)
     if asis.ok and asis.zero_actions():
         raise Machinery("vacuity: actions never taken: %s" % asis.zero_actions())
-    strict = _tlc(chk, "strict", tier + "_strict", workers=chk.pick(8, 16))
+    strict = _tlc(chk, "strict", tier + "_strict", workers=chk.pick(4, 16))
     fdump = chk.work / "g_filters"
     # per-row form of the filter semantics (every single-handler contents x every filter combination) ...
     filt = _tlc(chk, "filters_rows", "filters_rows", dump=fdump, workers=8)
@@ -190,7 +198,7 @@ def _bind(chk, drv, dbdir, asis, filt, kf_dup, kf_stale, menu, qmenu, filters, g
     multi = {}
     if g is not None:
         paths = tlc.covering_paths(g, max_len=12)
-        limit = chk.pick(100000, 25000)
+        limit = chk.pick(100000, 12000)
         if len(paths) > limit:
             step = len(paths) / float(limit)
             paths = [paths[int(i * step)] for i in range(limit)]
